@@ -509,7 +509,7 @@ def run_lines(sh, lab):
 
 # ---- part: indentation ---------------------------------------------------------------
 SCOPES = ["io.indent", "io.increment_indent", "out.indent", "out.increment_indent"]
-SIZES = [0, 2, 5]
+SIZES = [0, 1, 2, 5]
 EXITS = ["normal", "raise-first", "raise-last", "interrupt"]
 
 
